@@ -85,6 +85,10 @@ pub trait ReadValue {
 #[derive(Default)]
 pub struct ValueReader<R> {
     inner: R,
+
+    /// Total length of the underlying stream. Used to reject field lengths
+    /// which exceed the remaining input.
+    len: u64,
 }
 
 impl<R: BufRead + Seek + Position> ValueReader<R> {
@@ -93,8 +97,23 @@ impl<R: BufRead + Seek + Position> ValueReader<R> {
     /// See [`from_buf`](Self::from_buf) and [`from_file`](Self::from_file)
     /// for convenient wrappers for this which create readers from byte buffers
     /// and files.
-    pub fn new(inner: R) -> Self {
-        Self { inner }
+    pub fn new(mut inner: R) -> Self {
+        let pos = inner.position();
+        let len = inner
+            .seek(SeekFrom::End(0))
+            .and_then(|len| inner.seek(SeekFrom::Start(pos)).map(|_| len))
+            .unwrap_or(u64::MAX);
+        Self { inner, len }
+    }
+
+    /// Return an error if fewer than `len` bytes remain in the input.
+    fn check_remaining(&self, len: usize) -> Result<(), ProtobufError> {
+        let remaining = self.len.saturating_sub(self.inner.position());
+        if len as u64 <= remaining {
+            Ok(())
+        } else {
+            Err(ProtobufError::new(ErrorKind::Eof))
+        }
     }
 }
 
@@ -136,6 +155,7 @@ impl<R: BufRead + Seek + Position> ReadValue for ValueReader<R> {
         &mut self,
         len: usize,
     ) -> Result<<Self::Types as FieldTypes>::Bytes, ProtobufError> {
+        self.check_remaining(len)?;
         let mut buf = vec![0; len];
         self.inner.read_exact(&mut buf)?;
         Ok(buf)
@@ -150,6 +170,7 @@ impl<R: BufRead + Seek + Position> ReadValue for ValueReader<R> {
     }
 
     fn skip(&mut self, len: usize) -> Result<(), ProtobufError> {
+        self.check_remaining(len)?;
         self.inner.seek_relative(len as i64)?;
         Ok(())
     }
@@ -254,7 +275,7 @@ impl<'a, R: ReadValue> LimitReader<'a, R> {
     /// Create a reader which reads up to `len` bytes of `inner`.
     pub fn new(inner: &'a mut R, len: u64) -> Self {
         Self {
-            end: inner.position() + len,
+            end: inner.position().saturating_add(len),
             inner,
         }
     }
@@ -262,16 +283,15 @@ impl<'a, R: ReadValue> LimitReader<'a, R> {
     /// Create a sub-reader which reads up to `len` bytes of this reader.
     pub fn sub_limit(&mut self, len: u64) -> LimitReader<'_, R> {
         LimitReader {
-            end: self.inner.position() + len,
+            end: self.inner.position().saturating_add(len),
             inner: self.inner,
         }
     }
 
     fn check_has_bytes(&self, len: usize) -> Result<(), ProtobufError> {
-        if self.position() + (len as u64) <= self.end {
-            Ok(())
-        } else {
-            Err(ProtobufError::new(ErrorKind::Eof))
+        match self.position().checked_add(len as u64) {
+            Some(end) if end <= self.end => Ok(()),
+            _ => Err(ProtobufError::new(ErrorKind::Eof)),
         }
     }
 }
